@@ -102,6 +102,17 @@ class Transaction:
         for data_file in files:
             if not self.file_manager.validate_file_exists(data_file.file_path):
                 raise FileNotFoundError(f"Data file does not exist: {data_file.file_path}")
+            # The read path (scan, scan_batches, ...) reads every data file as
+            # parquet. A file in any other format would commit happily and then
+            # make every later scan fail, so it is refused here.
+            fmt = data_file.file_format
+            fmt_name = fmt.value if isinstance(fmt, FileFormat) else str(fmt)
+            if fmt_name.lower() != FileFormat.PARQUET.value:
+                raise ValueError(
+                    f"Data file '{data_file.file_path}' has format '{fmt_name}'. Only parquet "
+                    f"data files can be appended: table scans read every data file as parquet, "
+                    f"so appending it would make table scans fail."
+                )
             if table_schema is not None:
                 self._validate_file_schema(data_file, table_schema)
 
